@@ -82,7 +82,7 @@ type Node struct {
 	addr  raft.ServerAddress
 	sid   raft.ServerID
 	spec  NodeSpec
-	store *VStore
+	store NodeStore
 	snaps *VSnap
 	conf  *raft.Config
 
@@ -226,7 +226,11 @@ func (w *World) setup() {
 	boot := raft.Configuration{Servers: w.servers(func(ns NodeSpec) bool { return ns.InBootstrap })}
 	for i, ns := range w.sc.Nodes {
 		n := &Node{id: i, addr: raft.ServerAddress(nodeName(i)), sid: raft.ServerID(nodeName(i)), spec: ns}
-		n.store = NewVStore(i, w.sc.Store, nil)
+		if w.sc.Store == StoreInmem {
+			n.store = NewInmemAdapter(i)
+		} else {
+			n.store = NewVStore(i, w.sc.Store, nil)
+		}
 		n.snaps = NewVSnap(i, nil)
 		n.conf = w.baseConfig(i)
 		w.nodes = append(w.nodes, n)
@@ -237,7 +241,7 @@ func (w *World) setup() {
 			}
 			w.mon.OnBootstrap(i, n.store)
 		}
-		n.store.hooks = w
+		n.store.setHooks(w)
 		n.snaps.hooks = w
 	}
 	for _, n := range w.nodes {
@@ -993,7 +997,7 @@ func (w *World) stateString() string {
 	var sb strings.Builder
 	for _, n := range w.nodes {
 		if !n.up || n.r == nil {
-			fmt.Fprintf(&sb, "n%d:down(last=%d) ", n.id, n.store.hi)
+			fmt.Fprintf(&sb, "n%d:down(last=%d) ", n.id, n.store.Hi())
 			continue
 		}
 		fmt.Fprintf(&sb, "n%d:%v/t%d/l%d/c%d/a%d ", n.id, n.r.State(), n.r.CurrentTerm(), n.r.LastIndex(), n.r.CommitIndex(), n.r.AppliedIndex())
@@ -1009,9 +1013,9 @@ func (w *World) abstractKey() string {
 		if n.up && n.r != nil {
 			fmt.Fprintf(&sb, "%d/%d/%d/%d/%d", n.r.State(), n.r.CurrentTerm(), n.r.LastIndex(), n.r.CommitIndex(), n.r.AppliedIndex())
 		}
-		fmt.Fprintf(&sb, " T%d V%d:%s L", n.store.kvU["CurrentTerm"], n.store.kvU["LastVoteTerm"], n.store.kv["LastVoteCand"])
+		fmt.Fprintf(&sb, " T%d V%d:%s L", n.store.U64("CurrentTerm"), n.store.U64("LastVoteTerm"), n.store.Bytes("LastVoteCand"))
 		for _, i := range n.store.Indexes() {
-			fmt.Fprintf(&sb, "%d.%d,", i, n.store.logs[i].Term)
+			fmt.Fprintf(&sb, "%d.%d,", i, n.store.Peek(i).Term)
 		}
 		if s := n.snaps.Newest(); s != nil {
 			fmt.Fprintf(&sb, " S%d.%d", s.meta.Index, s.meta.Term)
